@@ -35,6 +35,22 @@ SPEC = {
 }
 
 
+class Box:
+    """A mutable value that is nevertheless hashable (like any ordinary user object)."""
+
+    def __init__(self, x):
+        self.x = x
+
+    def __eq__(self, other):
+        return isinstance(other, Box) and other.x == self.x
+
+    def __hash__(self):
+        return 17
+
+    def __repr__(self):
+        return f'Box({self.x})'
+
+
 class Target:
     def __init__(self, name, v):
         self.name = name
@@ -66,7 +82,8 @@ class PeriodicRun:
         with instrument.use_bus(self.bus):
             self.system = System()
             self.env = self.system.env
-            self.targets = [Target(f'T{k}', copy.deepcopy(v)) for k, v in enumerate(case['initial'])]
+            self.targets = [Target(f'T{k}', Box(k) if v == 'BOX' else copy.deepcopy(v))
+                            for k, v in enumerate(case['initial'])]
             self.probes = []
             for k, kind in enumerate(case['probe_kinds']):
                 if kind == 'attr':
@@ -120,13 +137,15 @@ class PeriodicRun:
         def act():
             kind = op[0]
             if kind == 'set':
-                self.targets[op[1]].v = copy.deepcopy(op[2])
+                self.targets[op[1]].v = Box(7) if op[2] == 'BOX' else copy.deepcopy(op[2])
             elif kind == 'mutate':
                 v = self.targets[op[1]].v
                 if isinstance(v, list):
                     v.append(op[2])
                 elif isinstance(v, dict):
                     v[op[2]] = op[2]
+                elif isinstance(v, Box):
+                    v.x += 1 + op[2]
             elif kind == 'sense':
                 self.pending = (self.env.now, self.probe_values())
                 self.sensor.sense()
@@ -206,7 +225,7 @@ class PeriodicRun:
                 return
             # stored values are copies, not the live mutable object
             tv = self.targets[k].v
-            if isinstance(tv, (list, dict)) and any(x is tv for x in series):
+            if isinstance(tv, (list, dict, Box)) and any(x is tv for x in series):
                 self.fail('copy', f'probe {k}: the stored value is the live object, not a copy')
                 return
         if case['kind'] == 'periodic':
@@ -333,7 +352,7 @@ class PartRun:
         return self.skipped > 0
 
 
-VALUES = [0, 1, 2.5, 'a', [1, 2], [3], {'k': 1}, None, 7]
+VALUES = [0, 1, 2.5, 'a', [1, 2], [3], {'k': 1}, None, 7, 'BOX', 'BOX']
 
 
 def gen_periodic(rng, tie):
